@@ -127,6 +127,7 @@ type msgChan struct {
 }
 
 type chanModel struct {
+	notListedBefore time.Time // the daemon's object for this channel was created at or before this instant (zero: not known)
 	Topic, Name string
 	Key         string
 	Exists      bool
@@ -324,6 +325,9 @@ func (w *qWorld) startNSQD() error {
 	w.mainDone = make(chan error, 1)
 	go func() { w.mainDone <- n.Main() }()
 	w.mainStart = time.Now()
+	for _, c := range w.chans {
+		c.notListedBefore = w.mainStart
+	}
 	w.tcpAddr = "127.0.0.1:4150"
 	if w.cfg.UnixSocket {
 		w.tcpAddr = "/sim/nsqd.sock"
@@ -495,6 +499,7 @@ func (w *qWorld) markChannelCreated(topic, name string) {
 		c.Exists = true
 		c.CreatedSeq = w.rc.Net.NextSeq()
 		c.CreatedStep = w.epoch
+		c.notListedBefore = time.Now()
 		c.Paused = false
 		c.Fins, c.Reqs, c.Discarded = 0, 0, 0
 		c.Tainted = w.inBurst
